@@ -501,4 +501,39 @@ theorem wf_obj_ext {σ : State} {a b : Addr} {m m' : ObjMap} (hw : WF σ) (ha : 
 
 example : WF σex ∧ σex.getObj 1 = some [(c!"A", SVal.plain .null), (c!"a", SVal.plain (.int 1))] := ⟨σex_wf.1, by rfl⟩
 
+/-! ### keys are text -/
+
+/-- a computed key is text: a string value whose bytes are not valid UTF-8 (a byte-wise piece of a multi-byte character) is
+    rejected where the key expression stands, on every path that takes a computed key — reading, assigning, op-assigning,
+    literal entries and pattern keys all go through `evalToStr` — so it never names, or collides with, a property -/
+theorem key_must_be_text (n : Nat) (σ σ1 : State) (sc : List Addr) (descr : List Char) (e : Expr) (v : SVal) (bs : Bytes)
+    (er : Utf8Err) (he : evalExpr n σ sc e = .ok v σ1) (hv : v.v = .str bs) (hd : utf8Decode bs = .error er) :
+    evalToStr (n + 1) σ sc descr e = errAt e.loc (Gen.Leaf.StringConstructionFailed er.msg descr) σ1 := by
+  unfold evalToStr; simp [he, Res.bind, hv, hd]
+
+/-- … and a string that is text names exactly the property spelt by its decoded characters -/
+theorem key_is_decoded_text (n : Nat) (σ σ1 : State) (sc : List Addr) (descr : List Char) (e : Expr) (v : SVal) (bs : Bytes)
+    (cs : List Char) (he : evalExpr n σ sc e = .ok v σ1) (hv : v.v = .str bs) (hd : utf8Decode bs = .ok cs) :
+    evalToStr (n + 1) σ sc descr e = .ok cs σ1 := by
+  unfold evalToStr; simp [he, Res.bind, hv, hd]
+
+/-- anything but a string is rejected as a key, naming its kind -/
+theorem key_must_be_string (n : Nat) (σ σ1 : State) (sc : List Addr) (descr : List Char) (e : Expr) (v : SVal)
+    (he : evalExpr n σ sc e = .ok v σ1) (hv : ∀ bs, v.v ≠ .str bs) :
+    evalToStr (n + 1) σ sc descr e = errAt e.loc (Gen.Leaf.IncorrectType descr c!"string" v.v.kind) σ1 := by
+  unfold evalToStr
+  rw [he]
+  show (match v.v with
+    | .str bs => (match utf8Decode bs with
+      | .ok cs => Res.ok cs σ1
+      | .error er => errAt e.loc (Gen.Leaf.StringConstructionFailed er.msg descr) σ1)
+    | w => errAt e.loc (Gen.Leaf.IncorrectType descr c!"string" w.kind) σ1) = _
+  split
+  · rename_i bs hb; exact absurd hb (hv bs)
+  · rfl
+
+/-- the two bytes of `é`, taken one at a time, are both not text (so neither can be a key, and they cannot collide) -/
+example : utf8Decode [0xC3] = .error (.incomplete 0) ∧ utf8Decode [0xA9] = .error (.invalid 1 0) ∧
+    utf8Decode [0xC3, 0xA9] = .ok c!"é" := ⟨by rfl, by rfl, by rfl⟩
+
 end Seed.C12
